@@ -68,6 +68,9 @@ def sites_to_obligations(rep, rule, sites, rows, ubcheck_rows=True):
         s = ss[0]
         row = next((r for r in rows if r.matches(s)), None)
         where = ", ".join(sorted({x.line for x in ss}))[:160]
+        if rule not in rep.rules:
+            rep.rule(rule, rule)
+        rep.rules[rule]["count"] += len(ss) - 1
         if row is not None:
             row.hits += len(ss)
             stats["row"] += len(ss)
